@@ -13,8 +13,11 @@ Known input classes (classified by the driver on the specific difference, never 
 import json
 import os
 import vlib
+from checks import _translator
 
-THEOREMS = {"Properties.C10": ["C10_noninterference_partial", "C10_other_tenant_step_invisible",
+THEOREMS = {"Properties.C10gen": ["C10_generated_tenant_ids_match_model", "C10_generated_tenant_ids_round_trip",
+                                  "C10_generated_range_check", "C10gen_nonvacuous"],
+            "Properties.C10": ["C10_noninterference_partial", "C10_other_tenant_step_invisible",
                                "C10_search_containment", "C10_bulk_search_containment",
                                "C10_search_count_refuted", "C10_flush_count_refuted",
                                "C10_reserved_keys", "C10_unauthenticated_refused", "C10_nonvacuous"]}
@@ -22,6 +25,11 @@ PINS = {"Properties.C10": {
     "_preamble": "From Coq Require Import List NArith ZArith Bool String. From Kyro Require Import Model.Server Proofs.ServerProofs Proofs.ServerNI. Open Scope N_scope.",
     "C10_noninterference_partial": "forall (idx_str : N -> str) (score : Z -> Z), (forall a b, idx_str a = idx_str b -> a = b) -> forall (cfg : config) (A B : N) (cs : list call), (forall k ki, nget (c_keys cfg) k = Some ki -> k_tenant ki = A -> k_admin ki = false) -> A <> B -> (forall c, In c cs -> callerA cfg A c = true -> covered (c_req c) = true) -> responses_of cfg A cs (run idx_str score cfg cs) = responses_of cfg A (remove_tenant cfg B cs) (run idx_str score cfg (remove_tenant cfg B cs))",
     "C10_unauthenticated_refused": "forall idx_str score cfg s c, (c_key c = None \\/ (exists k, c_key c = Some k /\\ nget (c_keys cfg) k = None) \\/ (exists k ki, c_key c = Some k /\\ nget (c_keys cfg) k = Some ki /\\ k_enabled ki = false)) -> step idx_str score cfg s c = (s, Err (if is_http (c_req c) then Http401 else Unauthenticated))",
+},
+    "Properties.C10gen": {
+    "_preamble": "From Coq Require Import NArith Bool. From Kyro Require Import Model.Server gen.TenantId_gen Proofs.TenantIdGenProofs. Open Scope N_scope.",
+    "C10_generated_tenant_ids_match_model": "forall t l g, t < 4294967296 -> g < 18446744073709551616 -> TenantId_gen.to_global_doc_id t l = Server.to_global_doc_id t l /\\ TenantId_gen.is_tenant_doc_id t g = Server.is_tenant_doc_id t g /\\ TenantId_gen.to_local_doc_id g = Server.to_local_doc_id g",
+    "C10_generated_tenant_ids_round_trip": "forall t l g, t < 4294967296 -> l < 4294967296 -> TenantId_gen.to_global_doc_id t l = Some g -> TenantId_gen.to_local_doc_id g = l /\\ (forall t', t' < 4294967296 -> TenantId_gen.is_tenant_doc_id t' g = (t =? t')) /\\ g < 18446744073709551616",
 }}
 KNOWN_IDS = ["C10-search-count-depends-on-other-tenants", "C10-flush-count-is-process-wide"]
 
@@ -63,7 +71,15 @@ def run(ctx):
         "Section hypothesis of the noninterference theorem: u32::to_string is injective (idx_str); premise: tenant A's keys are not admin keys",
         "modelled, not verified: tonic/prost decoding, the interceptor plumbing, rate limiting, timing channels, tier/search_path enums, hot tier / HNSW / query cache internals (Search is specified as exact global top-search_k then tenant filter)",
     ]
-    proofs_ok = ctx.proof_phase(["Properties/C10.vo"], THEOREMS, pins=PINS)
+    ctx.trusted.append("harness/p/translator target tenant_id_mapper (syn parser + typed Rust-subset -> Gallina translator, fails closed): u32/u64 as N, `<<` with explicit mod 2^64, narrowing casts as mod 2^32, Result<u64, Status> as option N")
+    # regenerate coq/gen/TenantId_gen.v from kyrodb_server.rs (fails closed); Properties/C10gen.v ties it to Model/Server.v
+    gen = _translator.regen(ctx, "tenant_id_mapper", "TenantId_gen")
+    proofs_ok = ctx.proof_phase(["Properties/C10.vo", "Properties/C10gen.vo"], THEOREMS, pins=PINS)
+    gen_broken = []
+    if gen["broken"]:
+        gen_broken.append(gen["broken"])
+    elif _translator.stale_vo("TenantId_gen"):
+        gen_broken.append({"kind": "generated-model-did-not-compile", "file": "coq/gen/TenantId_gen.v"})
 
     ok, log, server_bin = vlib.server_build()
     ctx.log("server_build.log", log)
@@ -131,7 +147,7 @@ def run(ctx):
                            "victim": {"acme": 0, "bolt": 1, "cato": 2}.get(h["victim"], 0),
                            "removed": {"acme": 0, "bolt": 1, "cato": 2}.get(h["removed"], 1),
                            "case": h["case"], "replay_cmd": "./check C10 --replay <this file>"})
-    broken = []
+    broken = list(gen_broken)
     if not proofs_ok:
         broken.append({"kind": "proof-obligations", "failed": ctx.failed_obligations})
     if coq_err:
